@@ -106,3 +106,13 @@ impl Service<Request<Bytes>> for Peer {
         service.call(request)
     }
 }
+
+#[cfg(feature = "verif-hooks")]
+pub(crate) mod verif_hooks {
+    //! Thin wrappers for the external verification harness.
+    use super::*;
+
+    pub fn quinn_connection(peer: &Peer) -> quinn::Connection {
+        crate::connection::verif_hooks::quinn_connection(&peer.connection)
+    }
+}
